@@ -72,12 +72,12 @@ def wF63 : World := {
   log := [polEntry 0, push 0 2] }
 
 theorem F63_witness :
-    wF63.verifyRefFull { Variant.good with f63_trustExhaustive := true } mainRef = .ok (some 0) ∧
+    wF63.verifyRefFull { Variant.good with f63_trustExhaustive := true, f64_shortcutSkipsGlobals := true } mainRef = .ok (some 0) ∧
     wF63.c01Sound mainRef (some 0) = false ∧
     (wF63.verifyRefFull Variant.good mainRef).isOk = false ∧
     -- without the global rule the defect does not arise
     (({ wF63 with policies := [⟨wRoot, [wFile63]⟩] } : World).verifyRefFull
-        { Variant.good with f63_trustExhaustive := true } mainRef).isOk = false := by decide
+        { Variant.good with f63_trustExhaustive := true, f64_shortcutSkipsGlobals := true } mainRef).isOk = false := by decide
 
 /-- a history produced only by authorized actors verifies, and the property holds of it (non-vacuity) -/
 def wGood : World := {
